@@ -800,7 +800,11 @@ func genFailHopCase(r *rand.Rand) Sess {
 	fop := s.opTowards(r, t)
 	s.Ops = append(s.Ops, fop)
 	// afterwards: SendCommand(s) first, then 1-3 more
-	s.Ops = append(s.Ops, Op{Kind: []string{"command", "commands"}[r.Intn(2)], Level: -1, Lines: s.pickLines(r, 1+r.Intn(2))})
+	if r.Intn(2) == 0 {
+		s.Ops = append(s.Ops, Op{Kind: "command", Level: -1, Lines: s.pickLines(r, 1)})
+	} else {
+		s.Ops = append(s.Ops, Op{Kind: "commands", Level: -1, Lines: s.pickLines(r, 1+r.Intn(2))})
+	}
 	for k := 1 + r.Intn(3); k > 0; k-- {
 		if r.Intn(3) == 0 {
 			s.Ops = append(s.Ops, Op{Kind: "command", Level: -1, Lines: s.pickLines(r, 1)})
